@@ -329,7 +329,7 @@ PROPS = {
         'assumptions': ['Mode::with_extensions only', 'two fixed option tables'],
     },
     'C02': {
-        'v_units': ['cmdsearch', 'looplevel', 'returnbi', 'whileloop', 'forloop', 'casecmd', 'condframe', 'simplecmd', 'funcall', 'subshellcmd'],
+        'v_units': ['cmdsearch', 'looplevel', 'returnbi', 'whileloop', 'forloop', 'casecmd', 'condframe', 'simplecmd', 'funcall', 'subshellcmd', 'pipelinerun'],
         'k_units': ['loopcount'],
         'level': 'other',
         'explanation': (
@@ -388,7 +388,8 @@ PROPS = {
             'NOT decided: everything else C02 says - which commands run in which order with which $?, multi-command pipelines, '
             'the pattern matching inside case (matches), subshells, built-in execution, the $PATH walk '
             'itself (search_path: iterator adapters over strings, assumed), Env::builtin (availability under posixly-correct / portable).'
-            ' Unit subshellcmd (Verus, compound_command/subshell.rs execute + subshell_main): for `( ... )` exactly one child is started and what runs in it is subshell_main on exactly this body; the awaited result of exactly that child is interpreted once (handle_job_status), `$?` becomes the status it stands for, and errexit is consulted exactly once, afterwards, with that status (a failing subshell ends the shell under errexit) - unless interpreting the result diverts (stopped child / SIGINT in an interactive shell), which is handed on without errexit; a child that cannot be started gives an interrupt with the error status and leaves `$?` alone. Inside the child the body runs once, its result is applied (apply_result), and the EXIT trap runs exactly once, after both.'),
+            ' Unit subshellcmd (Verus, compound_command/subshell.rs execute + subshell_main): for `( ... )` exactly one child is started and what runs in it is subshell_main on exactly this body; the awaited result of exactly that child is interpreted once (handle_job_status), `$?` becomes the status it stands for, and errexit is consulted exactly once, afterwards, with that status (a failing subshell ends the shell under errexit) - unless interpreting the result diverts (stopped child / SIGINT in an interactive shell), which is handed on without errexit; a child that cannot be started gives an interrupt with the error status and leaves `$?` alone. Inside the child the body runs once, its result is applied (apply_result), and the EXIT trap runs exactly once, after both.'
+            ' Unit pipelinerun (Verus, pipeline.rs execute_commands_in_pipeline, execute_job_controlled_pipeline, execute_multi_command_pipeline, shift_or_fail, pid_or_fail, connect_pipe_and_execute_command) against a monitor of the opaque pipe-set / start / wait calls: an empty pipeline has status 0; a one-command pipeline is exactly that command run in this shell, its result handed on, no second errexit; for two or more commands no command runs in this shell: without job control one child is started per command, in order, each right after the pipe set was shifted for it and with the pipe set as just shifted (a next pipe iff it is not the last command), the parent shifts once more (closing its last pipe end) BEFORE it waits, every child started is awaited exactly once, in order (the process IDs are pairwise distinct and each is still unreaped when awaited, so the `expect` cannot fail), none is left unreaped, and `$?` is the status of the last command or, under pipefail, of the rightmost one that failed (0 if none); with job control exactly one child is started for exactly these commands, its awaited result is interpreted once and `$?` is the status it stands for; in both cases errexit is consulted exactly once, at the very end, with that status, and its answer is the result; a failing pipe / start gives an interrupt with status 126 (NOEXEC). In a child, connect_pipe_and_execute_command connects the pipes first and runs the command once, only if that worked.'),
         'trusted_base': ['Verus 0.2026.09.13 + Z3', 'Kani 0.68.0 + CBMC 6.11', '/verif/tools/vextract.py, /verif/tools/kunit.py'],
         'assumptions': [
             'unit cmdsearch: the methods of ClassifyEnv / PathEnv answer according to ghost views builtin_of / function_of / path_hit (implementor obligation, not verified); search_path is external_body (returns path_hit, leaves the environment alone); str::contains(char), CString::default / new are opaque helpers; Builtin / Function reduced to what the search reads; the raw identifier r#type is renamed (Verus aborts on it); derived PartialEq of Type is structural',
@@ -400,6 +401,7 @@ PROPS = {
             'unit casecmd: expanding the subject, tracing, testing the patterns of one item (matches) and executing one body are opaque calls driving a ghost monitor; the two calls are given the item itself instead of its patterns / body field (items carry their index as ghost data; precondition items_wf); testing patterns is assumed to leave $? alone; `for item in items` is checked as a while loop over the index; enum CaseContinuation is extracted from yash-syntax; preconditions: a fresh monitor; await points dropped',
             'unit whileloop: List::execute and evaluate_condition are external_body (any result, appended to a ghost log in the reduced Env); `?` on ControlFlow through assumed contracts of Try::branch / FromResidual::from_residual; await points dropped; termination not claimed',
             'unit subshellcmd: Config::foreground().start_and_wait(..) with its async closure, handle_job_status, apply_errexit / apply_result, print_error, List::execute and run_exit_trap are opaque calls that update a ghost monitor in the reduced Env (the job-name closure goes with the replaced call); await points dropped',
+            'unit pipelinerun: PipeSet is a ghost view (number of shifts, has-next flag of the last shift; the real shift / move_to_stdin_stdout are verified in unit pipeset); Config::new().start(..) / Config::foreground().start_and_wait(..) with their async closures are opaque calls (what the child-side closures do after connect_pipe_and_execute_command - apply_result, run_exit_trap - is NOT under contract here); start answers a process ID that is not among the unreaped ones and no job control; wait_for_subshell_to_finish answers Ok(target, status) for an unreaped child of ours (unit waitsub has the real function); handle_job_status, apply_errexit, controls_jobs, OptionSet::get(PipeFail), print_error opaque; `commands.iter().cloned()` is an assumed model of the slice iterator; `for pid in pids` takes the first element off on every round; debug_assert_eq!(job_control, None) is an obligation; preconditions: a fresh monitor; await points dropped; what happens to children already started when a later pipe / start fails is not constrained',
         ],
     },
     'C05': {
@@ -466,7 +468,7 @@ PROPS = {
         ],
     },
     'C13': {
-        'v_units': ['waitsub'],
+        'v_units': ['waitsub', 'pipelinerun'],
         'k_units': ['waitstatus'],
         'level': 'other',
         'explanation': (
@@ -487,12 +489,14 @@ PROPS = {
             'the table level). NOT decided: everything C13 says about schedules - that the shell terminates without deadlock under every '
             'interleaving, that the table is updated from the true wait status of the right child (wait_for_subshell, '
             'update_all_subshell_statuses, the SIGCHLD handling), zombies, $!, the pipefail rule (four lines inside the async pipeline '
-            'executor), `wait` without operands. The family of technique is silent on interleavings; this check sees none of them.'),
+            'executor), `wait` without operands. The family of technique is silent on interleavings; this check sees none of them.'
+            ' Unit pipelinerun (Verus, pipeline.rs execute_commands_in_pipeline, execute_job_controlled_pipeline, execute_multi_command_pipeline, shift_or_fail, pid_or_fail, connect_pipe_and_execute_command) against a monitor of the opaque pipe-set / start / wait calls: an empty pipeline has status 0; a one-command pipeline is exactly that command run in this shell, its result handed on, no second errexit; for two or more commands no command runs in this shell: without job control one child is started per command, in order, each right after the pipe set was shifted for it and with the pipe set as just shifted (a next pipe iff it is not the last command), the parent shifts once more (closing its last pipe end) BEFORE it waits, every child started is awaited exactly once, in order (the process IDs are pairwise distinct and each is still unreaped when awaited, so the `expect` cannot fail), none is left unreaped, and `$?` is the status of the last command or, under pipefail, of the rightmost one that failed (0 if none); with job control exactly one child is started for exactly these commands, its awaited result is interpreted once and `$?` is the status it stands for; in both cases errexit is consulted exactly once, at the very end, with that status, and its answer is the result; a failing pipe / start gives an interrupt with status 126 (NOEXEC). In a child, connect_pipe_and_execute_command connects the pipes first and runs the command once, only if that worked.'),
         'trusted_base': ['Verus 0.2026.09.13 + Z3', 'Kani 0.68.0 + CBMC 6.11', '/verif/tools/vextract.py, /verif/tools/kunit.py'],
         'assumptions': [
             'unit waitsub: enabling the SIGCHLD disposition, System::wait, JobList::update_status and wait_for_signal are opaque calls that update a ghost monitor in the reduced Env (rewrite rule tokens-to-helper for the three field-method calls); From<signal::Number> for ExitStatus (number + 0x180) is uninterpreted; the spec functions of the From / TryFrom spec traits of vstd are declared by hand and the real bodies are proved to obey them; await points dropped; termination not claimed; WHEN children change state is not modelled',
             'std HashMap of the job table is replaced by the linear stand-in of the Kani pipeline (cfg verif_map)',
             'tables of at most one job; the status test is applied twice; signals restricted to 1..64',
+            'unit pipelinerun: PipeSet is a ghost view (number of shifts, has-next flag of the last shift; the real shift / move_to_stdin_stdout are verified in unit pipeset); Config::new().start(..) / Config::foreground().start_and_wait(..) with their async closures are opaque calls (what the child-side closures do after connect_pipe_and_execute_command - apply_result, run_exit_trap - is NOT under contract here); start answers a process ID that is not among the unreaped ones and no job control; wait_for_subshell_to_finish answers Ok(target, status) for an unreaped child of ours (unit waitsub has the real function); handle_job_status, apply_errexit, controls_jobs, OptionSet::get(PipeFail), print_error opaque; `commands.iter().cloned()` is an assumed model of the slice iterator; `for pid in pids` takes the first element off on every round; debug_assert_eq!(job_control, None) is an obligation; preconditions: a fresh monitor; await points dropped; what happens to children already started when a later pipe / start fails is not constrained',
         ],
     },
     'C17': {
@@ -556,7 +560,7 @@ PROPS = {
         ],
     },
     'C10': {
-        'v_units': ['errexit', 'condframe', 'assignstatus', 'simplecmd', 'errhandle', 'fullcompound', 'replloop', 'subshellcmd'],
+        'v_units': ['errexit', 'condframe', 'assignstatus', 'simplecmd', 'errhandle', 'fullcompound', 'replloop', 'subshellcmd', 'pipelinerun'],
         'k_units': ['errexit'],
         'level': 'other',
         'explanation': (
@@ -590,7 +594,8 @@ PROPS = {
             'NOT decided: which other commands consult '
             'apply_errexit, and the consequences-of-shell-errors table (special built-in errors, redirection errors, assignment errors, '
             'expansion errors): all of that is async interpreter code outside both tools.'
-            ' Unit subshellcmd (Verus, compound_command/subshell.rs execute + subshell_main): for `( ... )` exactly one child is started and what runs in it is subshell_main on exactly this body; the awaited result of exactly that child is interpreted once (handle_job_status), `$?` becomes the status it stands for, and errexit is consulted exactly once, afterwards, with that status (a failing subshell ends the shell under errexit) - unless interpreting the result diverts (stopped child / SIGINT in an interactive shell), which is handed on without errexit; a child that cannot be started gives an interrupt with the error status and leaves `$?` alone. Inside the child the body runs once, its result is applied (apply_result), and the EXIT trap runs exactly once, after both.'),
+            ' Unit subshellcmd (Verus, compound_command/subshell.rs execute + subshell_main): for `( ... )` exactly one child is started and what runs in it is subshell_main on exactly this body; the awaited result of exactly that child is interpreted once (handle_job_status), `$?` becomes the status it stands for, and errexit is consulted exactly once, afterwards, with that status (a failing subshell ends the shell under errexit) - unless interpreting the result diverts (stopped child / SIGINT in an interactive shell), which is handed on without errexit; a child that cannot be started gives an interrupt with the error status and leaves `$?` alone. Inside the child the body runs once, its result is applied (apply_result), and the EXIT trap runs exactly once, after both.'
+            ' Unit pipelinerun (Verus, pipeline.rs execute_commands_in_pipeline, execute_job_controlled_pipeline, execute_multi_command_pipeline, shift_or_fail, pid_or_fail, connect_pipe_and_execute_command) against a monitor of the opaque pipe-set / start / wait calls: an empty pipeline has status 0; a one-command pipeline is exactly that command run in this shell, its result handed on, no second errexit; for two or more commands no command runs in this shell: without job control one child is started per command, in order, each right after the pipe set was shifted for it and with the pipe set as just shifted (a next pipe iff it is not the last command), the parent shifts once more (closing its last pipe end) BEFORE it waits, every child started is awaited exactly once, in order (the process IDs are pairwise distinct and each is still unreaped when awaited, so the `expect` cannot fail), none is left unreaped, and `$?` is the status of the last command or, under pipefail, of the rightmost one that failed (0 if none); with job control exactly one child is started for exactly these commands, its awaited result is interpreted once and `$?` is the status it stands for; in both cases errexit is consulted exactly once, at the very end, with that status, and its answer is the result; a failing pipe / start gives an interrupt with status 126 (NOEXEC). In a child, connect_pipe_and_execute_command connects the pipes first and runs the command once, only if that worked.'),
         'trusted_base': ['Verus 0.2026.09.13 + Z3', 'Kani 0.68.0 + CBMC 6.11', '/verif/tools/vextract.py, /verif/tools/kunit.py'],
         'assumptions': [
             'struct Env is reduced to the fields the functions read (exit_status, options, stack) in the Verus unit; OptionSet::get is assumed to answer On iff the option is in the set',
@@ -602,6 +607,7 @@ PROPS = {
             'unit assignstatus: performing one assignment is an opaque call recorded in a ghost log; Option::or and Option::as_deref_mut (helper) have assumed contracts; await points dropped',
             'unit condframe: RAII of the frame guard is ASSUMED as a whole in the contract of Env::push_frame (external_body: while the guard lives the frame is on top; when it goes away one frame has been popped and the rest is as the guard left it) - Verus does not model destructors; what is verified is the destructor body (pops one frame) and the identical two-line body of Stack::push; running commands (List::execute, execute_commands_in_pipeline) is an opaque call that records (what, stack, status before/after, result) in a ghost log; Env reduced to exit_status / options / stack / log; `slice.iter().peekable()` is a hand-written index model; `&mut guard` (DerefMut) is checked as `guard.env`; an explicit drop(guard) is checked as the end of the guard\'s life; `?` on ControlFlow through assumed contracts; await points dropped; the option test of noexec is an assumed two-option model',
             'unit subshellcmd: Config::foreground().start_and_wait(..) with its async closure, handle_job_status, apply_errexit / apply_result, print_error, List::execute and run_exit_trap are opaque calls that update a ghost monitor in the reduced Env (the job-name closure goes with the replaced call); await points dropped',
+            'unit pipelinerun: PipeSet is a ghost view (number of shifts, has-next flag of the last shift; the real shift / move_to_stdin_stdout are verified in unit pipeset); Config::new().start(..) / Config::foreground().start_and_wait(..) with their async closures are opaque calls (what the child-side closures do after connect_pipe_and_execute_command - apply_result, run_exit_trap - is NOT under contract here); start answers a process ID that is not among the unreaped ones and no job control; wait_for_subshell_to_finish answers Ok(target, status) for an unreaped child of ours (unit waitsub has the real function); handle_job_status, apply_errexit, controls_jobs, OptionSet::get(PipeFail), print_error opaque; `commands.iter().cloned()` is an assumed model of the slice iterator; `for pid in pids` takes the first element off on every round; debug_assert_eq!(job_control, None) is an obligation; preconditions: a fresh monitor; await points dropped; what happens to children already started when a later pipe / start fails is not constrained',
         ],
     },
 }
